@@ -248,8 +248,10 @@ def check_equiv(W, world, scope, pre, ops, real=True):
                                  "program %s: sync %r, %s %r" % (txt, s.final, who, final)))
             elif s.follow != follow:
                 problems.append(("equiv-follow", "equiv %s scope -> following program: sync %r, %s %r" % (scope, s.follow, who, follow), "program " + txt))
-    for kind, msg in _post(a, None):
+    for kind, msg in _post(a, s.warnings):
         problems.append(("clean-" + kind, "no injection, %s scope -> %s" % (scope, msg), "program " + txt))
+    if s.warnings != a.warnings:
+        problems.append(("equiv-warnings", "equiv %s scope -> warnings differ: sync %r, async %r" % (scope, s.warnings, a.warnings), "program " + txt))
     if s.checkedout != 0:
         problems.append(("sync-checkedout", "equiv %s -> sync pool.checkedout()=%d after the program" % (txt, s.checkedout), ""))
     return problems, dict(sync=s, a=a, counter=cnt)
@@ -261,7 +263,7 @@ def _noaddr(txt):
     return re.sub(r"<.*>", "<obj>", txt)
 
 
-def _post(a, expect_follow):
+def _post(a, baseline_warnings):
     """post-conditions that do not depend on the reference run"""
     out = []
     if a.checkedout != 0:
@@ -279,8 +281,9 @@ def _post(a, expect_follow):
         out.append(("pool-accounting", a.pool_problems[0]))
     if a.loop_exc:
         out.append(("loop-exception", "loop exception handler: %s" % (a.loop_exc[0],)))
-    if a.warnings:
-        out.append(("warning", "warning emitted: %s" % (_noaddr(a.warnings[0])[:110],)))
+    extra = [w for w in a.warnings if w not in (baseline_warnings or ())]
+    if extra:
+        out.append(("warning", "warning emitted: %s" % (_noaddr(extra[0])[:110],)))
     return out
 
 
@@ -340,7 +343,7 @@ def check_inject(W, world, kind, scope, pre, ops, j, sync=None, info=None):
     extra = a.run.progress[len(before):]
     if extra:
         problems.append(("continued", "%s -> the program kept running after the request (%d more marks)" % (label, len(extra))))
-    for k, msg in _post(a, None):
+    for k, msg in _post(a, sync.warnings):
         problems.append((k, "%s -> %s" % (label, msg)))
     # no partial commit: committed rows are those of the reference run just before or just after the interrupted step
     marks = sync.progress
@@ -466,7 +469,7 @@ def run_two(W, world, scope, ops, who, j):
     return out
 
 
-def check_two_case(W, world, who, scope, ops, j):
+def check_two_case(W, world, who, scope, ops, j, baseline_warnings=None):
     from ..engines import aloop
 
     where = "two tasks: A=%s B=[connect ins(500) commit], cancel %s at boundary %d" % (_prog_txt(scope, "warm", ops), who, j)
@@ -485,7 +488,9 @@ def check_two_case(W, world, who, scope, ops, j):
         problems.append(("two-survivor", "%s -> the other task finished %s" % (label, survivor.split(":")[0])))
     if who == "A" and (500, 500) not in o.visible:
         problems.append(("two-survivor-data", "%s -> the other task's committed row is missing" % label))
-    for k, msg in _post(o, None):
+    if baseline_warnings is None:
+        baseline_warnings = run_two(W, world, scope, ops, who, None).warnings
+    for k, msg in _post(o, baseline_warnings):
         if k == "checkedout-until-gc":
             continue  # the single-task enumeration owns that reading (finding F2); here only what two tasks add
         problems.append(("two-" + k, "%s -> %s" % (label, msg)))
@@ -567,7 +572,7 @@ def run_shard(shard, tier, rec):
                     o = run_two(W, world, scope, ops, who, None)
                     rec.count("two_task_boundaries", len(o.boundaries))
                     for j in o.boundaries:
-                        problems, nt = check_two_case(W, world, who, scope, ops, j)
+                        problems, nt = check_two_case(W, world, who, scope, ops, j, baseline_warnings=o.warnings)
                         rec.case((kind, scope, ops, j), nontrivial=nt)
                         for pk, sig, detail in problems:
                             rec.violation(sig, detail, dict(kind=kind, scope=scope, pre=pre, ops=list(ops), j=j), kind=sig)
